@@ -27,10 +27,15 @@ PARTIAL = ("'fluids keep their dimensions' is read as: a fluid's own stored dime
            "unit height is not conserved (derived_mass_per_height_changes); the expansion correlations themselves are parameters (any curve with 1 + dL/L > 0); floating-point "
            "rounding is outside the theorems (comparison tolerance 1e-9); the square root in the Helix area is a "
            "parameter specified by helixRoot_scales; 3-D shapes have no expanding dimensions (checked on the "
-           "regenerated table); composition-dependent expansion (no library material has it) is not modelled")
+           "regenerated table); composition-dependent expansion is not modelled: the theorems are stated for an expansion "
+           "curve that is a function of temperature only, and the run measures that no library material violates this")
 ASSUMPTIONS = [
     "material.linearExpansionPercent(Tc) is a parameter of the model: measured on the real material object at every "
     "temperature used and checked to satisfy 100 + pct > 0",
+    "expansion independent of composition: measured on every run (evidence key composition_dependent_expansion) - none of "
+    "the 57 constructible classes of armi.materials changes linearExpansionPercent or getThermalExpansionDensityReduction "
+    "when the component's number densities are perturbed, so the renormalisation branch of "
+    "Component.updateNumberDensities / a composition-dependent setTemperature is never taken with library materials",
     "Fluid.pseudoDensity(Tc) likewise (fluid number-density factor rho1/rho0)",
     "math.pi / math.sqrt(3.0) enter the area functions as exact rational values of the doubles; math.sqrt in "
     "Helix.getComponentArea is modelled by a 1e-40 rational square root",
@@ -169,6 +174,22 @@ def classify_materials(ctx):
             info["why"] = repr(e)[:80]
             out[name] = info
             continue
+        # does the expansion (or the density reduction of setTemperature) depend on the component's composition?
+        info["composition_dependent"] = False
+        try:
+            with common.quiet():
+                ts = [lo + (hi - lo) * k / 4.0 for k in range(5)]
+                before = [float(m.linearExpansionPercent(Tc=t)) for t in ts] + \
+                         [float(m.getThermalExpansionDensityReduction(ts[0], ts[k])) for k in (1, 3)]
+                if nd:
+                    pert = {n: v * (3.0 if i == 0 else 0.25) for i, (n, v) in enumerate(nd.items())}
+                    comp.p.numberDensities = dict(pert)
+                    after = [float(m.linearExpansionPercent(Tc=t)) for t in ts] + \
+                            [float(m.getThermalExpansionDensityReduction(ts[0], ts[k])) for k in (1, 3)]
+                    comp.p.numberDensities = dict(nd)
+                    info["composition_dependent"] = before != after
+        except Exception:
+            pass
         if issubclass(cls, (material.Fluid, Custom)):
             info["kind"] = "fluid"
         else:
@@ -1102,6 +1123,17 @@ def run(ctx):
     for k, v in kinds.items():
         ctx.count(f"material classes: {k}", len(v))
     ctx.extra["materials"] = {k: v for k, v in kinds.items()}
+    dep = sorted(n for n, i in mats.items() if i.get("composition_dependent"))
+    ctx.extra["composition_dependent_expansion"] = {
+        "measured_on": len([1 for i in mats.values() if i["kind"] != "skip"]),
+        "materials_whose_expansion_or_density_reduction_changes_with_component_composition": dep,
+        "method": "linearExpansionPercent at 5 temperatures and getThermalExpansionDensityReduction at 2 pairs, before/after "
+                  "perturbing the component's number densities (first nuclide x3, the others x0.25)"}
+    ctx.count("materials with composition-dependent expansion", len(dep))
+    for n in dep:
+        # the model's assumption 'expansion independent of composition' does not cover these: excluded from the
+        # solid cross product below (their setTemperature is judged by nothing) - reported, never silently passed
+        ctx.count(f"composition-dependent expansion: {n}")
     # the regenerated table against the real classes and against the model's table (independent of Lean)
     for shape, cls in component_classes().items():
         real = sorted(cls.THERMAL_EXPANSION_DIMS)
